@@ -221,3 +221,64 @@ def fixed_total(events, kinds=("w", "bytes")):
         else:
             tot += e["w"]
     return tot, var, loopw
+
+
+def is_push(c):
+    n = c.name
+    return (n.endswith("Vec::<T, A>::push") or n.endswith("SmallVec::<A>::push") or n.endswith("KeyBuffer::push")
+            or n.endswith("KeyBuffer>::push") or n.endswith("collections::Vec::<'bump, T>::push") or n.endswith("::push"))
+
+
+def const_desc(op):
+    if op is None or op[0] != "k":
+        return None
+    if op[4] is not None:
+        return op[4]
+    return op[5] or op[1]
+
+
+def emission_signature(f, with_conds=True):
+    """ordered (by source line) list of emission-relevant events of an encoder: branch predicates, tag pushes, integer
+    conversions, bit transforms with constant operands.  Two sibling encoders of one format must have equal signatures."""
+    ev = []
+    for bb, b in enumerate(f.blocks):
+        for s in b["s"]:
+            if s[0] != "=":
+                continue
+            rv = s[2]
+            if rv[0] == "bin" and rv[1] in ("BitXor", "BitAnd", "BitOr", "Shl", "Shr"):
+                k = const_desc(rv[3]) if rv[3][0] == "k" else const_desc(rv[2]) if rv[2][0] == "k" else None
+                if k is None:
+                    k = const_value(f, rv[3])
+                ev.append((s[3], bb, ("bit", rv[1], k)))
+            elif rv[0] == "un" and rv[1] == "Not" and "bool" != f.locals[s[1][0]]:
+                ev.append((s[3], bb, ("bit", "Not", None)))
+        t = b["t"]
+        if t[0] == "switch" and t[2] == "bool" and with_conds:
+            pl = operand_place(t[1])
+            if pl is not None and not pl[1]:
+                k, p, neg = f.origin(pl[0])
+                if k == "rvalue" and p[0] == "bin":
+                    c2 = const_desc(p[3]) if p[3][0] == "k" else const_desc(p[2]) if p[2][0] == "k" else None
+                    ev.append((b.get("l"), bb, ("cond", p[1], c2)))
+                elif k == "call" and p is not None and not p.name.endswith("Iterator>::next"):
+                    ev.append((b.get("l"), bb, ("cond", p.name.rsplit("::", 1)[-1], None)))
+        elif t[0] == "switch" and t[2] not in ("bool", "isize") and with_conds:
+            ev.append((b.get("l"), bb, ("match", tuple(sorted(v for v, _ in t[3])))))
+    for c in f.calls:
+        ic = int_conv(c)
+        if ic:
+            ev.append((c.line, c.bb, ("conv", ic[0], ic[1], ic[3])))
+        elif is_push(c) and len(c.args) > 1:
+            a = c.args[1]
+            if a[0] != "k":
+                pl = operand_place(a)
+                ds = f.defs().get(pl[0], []) if pl and not pl[1] else []
+                if len(ds) == 1 and ds[0][0] == "stmt" and ds[0][3][0] == "use" and ds[0][3][1][0] == "k":
+                    a = ds[0][3][1]
+            if a[0] == "k" and a[4] is not None:
+                ev.append((c.line, c.bb, ("push", a[5].rsplit("::", 1)[-1] if a[5] else None, a[4])))
+            else:
+                ev.append((c.line, c.bb, ("push", "<var>", None)))
+    ev.sort(key=lambda x: (x[0], x[1]))
+    return [e[2] for e in ev]
